@@ -395,6 +395,184 @@ def source_field_check(rng, n, dis):
     return ev
 
 
+# ------------------------------------------------------- magnetic groups
+MHEADER = (HEADER + "From V Require Import Gen.FieldsCurl Model.FIT Model.InterpMag.\n")
+
+
+def kernel_case(rng):
+    """_edge_curl_factor: generated model vs compiled kernel and .py_func."""
+    shape = tuple(rng.randint(1, 3) for _ in range(3))
+    cplx = rng.random() < 0.5
+    hs = [[K.dy_pos(rng) for _ in range(n)] for n in shape]
+    e = gen_field(rng, shape, cplx)
+    m0 = [K.rand_arr(rng, sh, cplx) for sh in FSH_H(shape)]      # pre-filled output arrays
+    zeta = K.rand_arr(rng, shape, cplx, pos=True)
+    return dict(shape=shape, cplx=cplx, hs=hs, e=e, m0=m0, zeta=zeta)
+
+
+def kernel_text(c):
+    cplx = c['cplx']
+    T = '(Q * Q)' if cplx else 'Q'
+    nx, ny, nz = c['shape']
+    L = [K.CASE_HEADER, "From V Require Import Gen.FieldsCurl.",
+         f"Definition nx := {nx}%Z. Definition ny := {ny}%Z. Definition nz := {nz}%Z."]
+    for nm, a in zip(('mx', 'my', 'mz'), c['m0']):
+        L.append(f"Definition {nm} : Z -> Z -> Z -> {T} := {K.coq_arr3(a, cplx)}.")
+    for nm, a in zip(('ex', 'ey', 'ez'), c['e']):
+        L.append(f"Definition {nm} : Z -> Z -> Z -> {T} := {K.coq_arr3(K.as_type(a, cplx), cplx)}.")
+    L.append(f"Definition zeta : Z -> Z -> Z -> {T} := {K.coq_arr3(c['zeta'], cplx)}.")
+    for nm, h in zip(('hx', 'hy', 'hz'), c['hs']):
+        L.append(f"Definition {nm} : Z -> {T} := {K.coq_arr1(K.as_type(h, cplx), cplx)}.")
+    out = 'out_c' if cplx else 'out_q'
+    L.append("Definition res := _edge_curl_factor nx ny nz mx my mz ex ey ez hx hy hz zeta.")
+    L.append(f"Eval vm_compute in dump3 {out} (nx+1) ny nz (fst (fst res)).")
+    L.append(f"Eval vm_compute in dump3 {out} nx (ny+1) nz (snd (fst res)).")
+    L.append(f"Eval vm_compute in dump3 {out} nx ny (nz+1) (snd res).")
+    return '\n'.join(L) + '\n'
+
+
+def kernel_check(c, out, dis):
+    from emg3d import fields
+    dt = complex if c['cplx'] else float
+    model = [K.parse_arr(a, c['cplx']) for a in V.eval_answers(out)]
+    n = 0
+    for tag, f in (('jit', fields._edge_curl_factor), ('py_func', fields._edge_curl_factor.py_func)):
+        m = [np.array(a, dtype=dt) for a in c['m0']]
+        e = [np.array(a, dtype=dt) for a in c['e']]
+        f(m[0], m[1], m[2], e[0], e[1], e[2], *[np.array(h, float) for h in c['hs']],
+          np.array(c['zeta'], dtype=dt))
+        n += 1
+        for comp in range(3):
+            iv = m[comp].ravel()
+            mv = model[comp]
+            if len(iv) != len(mv):
+                dis.append({'what': 'shape mismatch in _edge_curl_factor dump', 'case': list(c['shape'])})
+                continue
+            scale = max(1.0, float(np.max(np.abs(iv))))
+            bad = [k for k in range(len(iv)) if abs(complex(iv[k]) - mv[k]) > 1e-9 * scale]
+            if bad:
+                dis.append({'what': f'fields._edge_curl_factor ({tag}) differs from Gen.FieldsCurl',
+                            'case': {'shape': list(c['shape']), 'complex': c['cplx'], 'hs': c['hs']},
+                            'component': 'xyz'[comp], 'flat_index': bad[0],
+                            'impl': str(iv[bad[0]]), 'model': str(mv[bad[0]])})
+    return n
+
+
+def magnetic_group(rng):
+    """One grid (mu_r = 1), one E field, a frequency (Laplace s real, or
+    frequency domain), receivers in the inner range (+ a few outside)."""
+    g = gen_grid(rng, 2, 4)
+    cplx = rng.random() < 0.5
+    laplace = rng.random() < 0.5
+    cplx = cplx and not laplace          # a Laplace-domain Field is real
+    freq = -K.dy_pos(rng) if laplace else K.dy_pos(rng)
+    e = gen_field(rng, g['shape'], cplx)
+    recs = [gen_receiver(rng, g, malformed=(rng.random() < 0.2)) for _ in range(4)]
+    return dict(kind='magnetic', g=g, cplx=cplx, freq=freq, e=e, recs=recs)
+
+
+def magnetic_text(c):
+    import scipy.constants as sc
+    g = c['g']
+    nx, ny, nz = g['shape']
+    # real scale of s*mu0: Laplace s = -f (f<0) ; frequency s = i w, handled by H = H'/i
+    cval = (-c['freq'] if c['freq'] < 0 else 2 * np.pi * c['freq']) * sc.mu_0
+    L = [MHEADER] + coq_grid(g) + coq_field('e', c['e'])
+    for nm, h in zip(('hx', 'hy', 'hz'), g['hs']):
+        L.append(f"Definition {nm} : Z -> Q := {K.coq_arr1(h, False)}.")
+    L.append(f"Definition cval : Q := {V.q(float(cval))}.")
+    parts = ['r', 'i'] if c['cplx'] else ['r']
+    for p in parts:
+        L.append(f"Definition H{p} := magnetic_field nx ny nz hx hy hz (zeta_vac hx hy hz cval) "
+                 f"ex{p} ey{p} ez{p}.")
+        L.append(f"Definition Hx{p} := tab3 0%Q (nx+1) ny nz (fst (fst H{p})).")
+        L.append(f"Definition Hy{p} := tab3 0%Q nx (ny+1) nz (snd (fst H{p})).")
+        L.append(f"Definition Hz{p} := tab3 0%Q nx ny (nz+1) (snd H{p}).")
+    for r in c['recs']:
+        for p in parts:
+            L.append(f"Eval vm_compute in oo (get_receiver Qle_bool nx ny nz ndx ndy ndz eps false "
+                     f"Hx{p} Hy{p} Hz{p} {rx_args(r)}).")
+    # adjoint source vector: curl^T of the face sampling vector
+    for r in c['recs']:
+        L.append(f"Eval vm_compute in match face_vector Qle_bool nx ny nz ndx ndy ndz {rx_args(r)} with "
+                 f"| Some t => let wx := tab3 0%Q (nx+1) ny nz (fst (fst t)) in "
+                 f"let wy := tab3 0%Q nx (ny+1) nz (snd (fst t)) in "
+                 f"let wz := tab3 0%Q nx ny (nz+1) (snd t) in "
+                 f"(1, (dump3 out_q nx (ny+1) (nz+1) (curlT_x wy wz hy hz), "
+                 f"dump3 out_q (nx+1) ny (nz+1) (curlT_y wx wz hx hz), "
+                 f"dump3 out_q (nx+1) (ny+1) nz (curlT_z wx wy hx hy))) "
+                 f"| None => (0, ([], [], [])) end.")
+    return '\n'.join(L) + '\n'
+
+
+def magnetic_check(c, out, dis, hist, seen):
+    import emg3d
+    from emg3d import fields
+    g = c['g']
+    grid = make_grid(g)
+    efield = emg3d.Field(grid, frequency=c['freq'])
+    efield.fx[...] = c['e'][0]
+    efield.fy[...] = c['e'][1]
+    efield.fz[...] = c['e'][2]
+    model = emg3d.Model(grid, property_x=np.ones(grid.shape_cells))
+    hfield = fields.get_magnetic_field(model, efield)
+    ans = V.eval_answers(out)
+    parts = 2 if c['cplx'] else 1
+    k = 0
+    n = 0
+    hscale = float(np.max(np.abs(hfield.field))) if hfield.field.size else 1.0
+    for r in c['recs']:
+        vals = [parse_opt(ans[k + p])[0] for p in range(parts)]
+        k += parts
+        impl = impl_receiver(hfield, r)[0]
+        n += 1
+        if any(v is None for v in vals):
+            ok = bool(np.isnan(impl))
+            mod = 'nan'
+        else:
+            hp = complex(float(vals[0]), float(vals[1]) if parts > 1 else 0.0)   # H' for real s*mu0
+            mod = hp if c['freq'] < 0 else hp / 1j
+            ok = (not np.isnan(impl)) and abs(impl - mod) <= 1e-9 * max(abs(mod), hscale * sum(abs(x) for x in r['fac']), 1e-300)
+        hist['mag_rx_' + ('nan' if mod == 'nan' else 'num')] += 1
+        if not ok:
+            dis.append({'what': 'get_magnetic_field + get_receiver(linear) differs from the model '
+                                '(Gen._edge_curl_factor + Model.Interp.get_receiver on faces)',
+                        'case': brief_rx(g, r), 'frequency': c['freq'], 'complex': c['cplx'],
+                        'impl': str(impl), 'model': str(mod)})
+        else:
+            seen.add(('mag', g['shape'], tuple(r['kinds']), c['freq'] < 0))
+    shp = FSH_E(g['shape'])
+    for r in c['recs']:
+        a = ans[k]
+        k += 1
+        interior = all(kd in INTERIOR_KINDS for kd in r['kinds'])
+        if not interior:
+            continue             # discretize's behaviour outside the inner range is not modelled
+        co = tuple(r['xyz']) + (r['az'], r['el'])
+        pv = fields._point_vector_magnetic(grid, co, None)
+        impl = [np.array(pv.fx), np.array(pv.fy), np.array(pv.fz)]
+        n += 1
+        if not a.strip().startswith('(1'):
+            dis.append({'what': 'face_vector is None for an interior position', 'case': brief_rx(g, r)})
+            continue
+        fr = V.parse_pairs(a[a.index(',') + 1:])
+        sizes = [int(np.prod(s_)) for s_ in shp]
+        off = 0
+        for comp in range(3):
+            mv = -np.array([float(x_) for x_ in fr[off:off + sizes[comp]]]).reshape(shp[comp])
+            off += sizes[comp]
+            d = np.abs(impl[comp] - mv)
+            if np.max(d) > 1e-9 * max(1.0, float(np.max(np.abs(mv)))):
+                idx = np.unravel_index(int(np.argmax(d)), d.shape)
+                dis.append({'what': '_point_vector_magnetic (discretize) differs from -curl^T(face_vector)',
+                            'case': brief_rx(g, r), 'component': 'xyz'[comp],
+                            'index': [int(i) for i in idx], 'impl': float(impl[comp][idx]),
+                            'model': float(mv[idx])})
+                break
+        hist['mag_vector'] += 1
+    return n
+
+
 # ----------------------------------------------------------- correspondence
 def correspondence(ctx):
     import collections
@@ -402,6 +580,10 @@ def correspondence(ctx):
     ngroups = 64 if ctx.thorough else 16
     groups = [electric_group(rng, i, ctx.thorough) for i in range(ngroups)]
     texts = [(f"c09_e_{i}", electric_text(c)) for i, c in enumerate(groups)]
+    kcases = [kernel_case(rng) for _ in range(16 if ctx.thorough else 6)]
+    texts += [(f"c09_k_{i}", kernel_text(c)) for i, c in enumerate(kcases)]
+    mgroups = [magnetic_group(rng) for _ in range(24 if ctx.thorough else 8)]
+    texts += [(f"c09_m_{i}", magnetic_text(c)) for i, c in enumerate(mgroups)]
     res = V.coq_eval_many(texts)
     dis, seen = [], set()
     hist = collections.Counter()
@@ -413,6 +595,20 @@ def correspondence(ctx):
             continue
         evals += electric_check(c, out, dis, hist, seen)
     evals += source_field_check(rng, 24 if ctx.thorough else 8, dis)
+    for i, c in enumerate(kcases):
+        rc, out = res[f"c09_k_{i}"]
+        if rc != 0:
+            dis.append({'what': 'Gen.FieldsCurl does not evaluate', 'log': out[-1500:]})
+            continue
+        evals += kernel_check(c, out, dis)
+        seen.add(('kernel', c['shape'], c['cplx']))
+    hist['kernel_cases'] = len(kcases)
+    for i, c in enumerate(mgroups):
+        rc, out = res[f"c09_m_{i}"]
+        if rc != 0:
+            dis.append({'what': 'magnetic model does not evaluate', 'log': out[-1500:]})
+            continue
+        evals += magnetic_check(c, out, dis, hist, seen)
     samples = [brief_rx(groups[0]['g'], r) for r in groups[0]['recs'][:2]]
     return {
         'evaluations': evals,
@@ -425,7 +621,10 @@ def correspondence(ctx):
                 "1e-8 degrees of an axis (both sides of the 1e-10 guard, the guarded component scaled by "
                 "2^40 so that a skipped component is visible). distinct non-trivial = distinct (shape, "
                 "position kinds, factor classes) with a non-generic coordinate or a guarded factor, plus "
-                "distinct error / outer-cell point-vector cases",
+                "distinct error / outer-cell point-vector cases. Kernel cases: _edge_curl_factor compiled and "
+                ".py_func vs the generated model on 1..3^3 shapes with pre-filled outputs. Magnetic groups: "
+                "mu_r = 1, Laplace or frequency domain, 4 receivers sampled through get_magnetic_field, and "
+                "_point_vector_magnetic(frequency=None) vs -curl^T(face_vector) for interior positions",
         'samples': samples,
         'traces_validated_against_impl': evals,
         'histogram': dict(hist),
@@ -434,9 +633,195 @@ def correspondence(ctx):
 
 
 # ------------------------------------------------------------------ searcher
+# Independent oracle written from the property text: trilinear weights on the
+# staggered grids with numpy only (no scipy interpolator, no emg3d helper).
+def _w1(g, x):
+    i = int(np.clip(np.searchsorted(g, x, side='right') - 1, 0, len(g) - 2))
+    r = (x - g[i]) / (g[i + 1] - g[i])
+    return i, r
+
+
+def oracle_vector(grid, xyz, fac, electric=True):
+    nd = [np.asarray(grid.nodes_x), np.asarray(grid.nodes_y), np.asarray(grid.nodes_z)]
+    cc = [(n[1:] + n[:-1]) / 2 for n in nd]
+    out = []
+    for c in range(3):
+        gs = [(cc[d] if ((c == d) == electric) else nd[d]) for d in range(3)]
+        v = np.zeros([len(g) for g in gs])
+        (i, a), (j, b), (k, cz) = [_w1(gs[d], xyz[d]) for d in range(3)]
+        for di, wa in ((0, 1 - a), (1, a)):
+            for dj, wb in ((0, 1 - b), (1, b)):
+                for dk, wc in ((0, 1 - cz), (1, cz)):
+                    v[i + di, j + dj, k + dk] += wa * wb * wc
+        out.append(v * fac[c])
+    return out
+
+
+def _rand_problem(npr, nmin=3, nmax=7):
+    import emg3d
+    shape = tuple(int(npr.randint(nmin, nmax + 1)) for _ in range(3))
+    hs = [npr.uniform(0.5, 3.0, n) for n in shape]
+    origin = npr.uniform(-5, 5, 3)
+    grid = emg3d.TensorMesh(hs, origin)
+    return grid
+
+
+def _rand_rx(npr, grid, kind='interior'):
+    nds = [grid.nodes_x, grid.nodes_y, grid.nodes_z]
+    xyz = []
+    for d in range(3):
+        n = nds[d]
+        t = npr.rand()
+        if t < 0.2:
+            xyz.append(float(n[npr.randint(1, len(n) - 1)]))          # exactly on a node
+        else:
+            xyz.append(float(npr.uniform(n[1], n[-2])))
+    if kind == 'outer':
+        d = npr.randint(3)
+        n = nds[d]
+        xyz[d] = float(npr.choice([npr.uniform(n[0], n[1]) - 1e-9, npr.uniform(n[-2], n[-1]) + 1e-9,
+                                   n[0] - 1.0, n[-1] + 1.0]))
+    az, el = npr.choice([0., 90., -90., 180., float(npr.uniform(-180, 180))]), \
+        npr.choice([0., 90., -90., float(npr.uniform(-90, 90))])
+    return xyz, float(az), float(el)
+
+
+def search_identity(np_seed):
+    """get_receiver(linear) == <_point_vector, field> == <oracle vector, field>;
+    NaN exactly outside the inner range; magnetic analogue through Faraday."""
+    import emg3d
+    from emg3d import fields
+    npr = np.random.RandomState(np_seed)
+    grid = _rand_problem(npr)
+    freq = float(npr.choice([1.0, 0.3, -2.0]))
+    ef = emg3d.Field(grid, frequency=freq)
+    ef.field = npr.standard_normal(ef.field.size) + (
+        1j * npr.standard_normal(ef.field.size) if freq > 0 else 0)
+    base = {'np_seed': int(np_seed), 'shape': list(grid.shape_cells), 'frequency': freq,
+            'hx': [float.hex(float(v)) for v in grid.h[0]], 'hy': [float.hex(float(v)) for v in grid.h[1]],
+            'hz': [float.hex(float(v)) for v in grid.h[2]], 'origin': [float.hex(float(v)) for v in grid.origin]}
+    model = emg3d.Model(grid, property_x=npr.uniform(0.1, 10, grid.shape_cells))
+    hf = fields.get_magnetic_field(model, ef)
+    for t in range(6):
+        xyz, az, el = _rand_rx(npr, grid)
+        co = tuple(xyz) + (az, el)
+        fac = rot(az, el)
+        rec = dict(base, xyz=[float.hex(v) for v in xyz], azimuth=az, elevation=el)
+        r = complex(fields.get_receiver(ef, co, 'linear'))
+        pv = fields._point_vector(grid, co)
+        ip = complex(np.sum(pv.field * ef.field))
+        sc = max(1.0, float(np.max(np.abs(ef.field))))
+        if not abs(r - ip) <= 1e-9 * sc:
+            return dict(rec, signature='get_receiver(linear) != <_point_vector, field>',
+                        observed=str(r), required=str(ip))
+        ov = oracle_vector(grid, xyz, fac, True)
+        io = complex(sum(np.sum(ov[c] * [ef.fx, ef.fy, ef.fz][c]) for c in range(3)))
+        if not abs(r - io) <= 1e-9 * sc:
+            return dict(rec, signature='get_receiver(linear) != trilinear sampling (independent oracle)',
+                        observed=str(r), required=str(io))
+        for c, a in enumerate((pv.fx, pv.fy, pv.fz)):
+            if np.max(np.abs(a - ov[c])) > 1e-9:
+                return dict(rec, signature='_point_vector != adjoint of trilinear sampling (independent oracle)',
+                            component='xyz'[c], observed=float(np.max(np.abs(a - ov[c]))), required=0.0)
+        # magnetic
+        rh = complex(fields.get_receiver(hf, co, 'linear'))
+        pm = fields._point_vector_magnetic(grid, co, freq)
+        ih = complex(np.sum(pm.field * ef.field))
+        sh = max(1.0, float(np.max(np.abs(hf.field))))
+        if not abs(rh - ih) <= 1e-8 * sh:
+            return dict(rec, signature='magnetic get_receiver != <_point_vector_magnetic, E> (mu_r = 1)',
+                        observed=str(rh), required=str(ih))
+        ovh = oracle_vector(grid, xyz, fac, False)
+        ioh = complex(sum(np.sum(ovh[c] * [hf.fx, hf.fy, hf.fz][c]) for c in range(3)))
+        if not abs(rh - ioh) <= 1e-9 * sh:
+            return dict(rec, signature='get_receiver(linear) on faces != trilinear sampling (independent oracle)',
+                        observed=str(rh), required=str(ioh))
+    for t in range(4):
+        xyz, az, el = _rand_rx(npr, grid, 'outer')
+        co = tuple(xyz) + (az, el)
+        r = complex(fields.get_receiver(ef, co, 'linear'))
+        if not np.isnan(r):
+            return dict(base, xyz=[float.hex(v) for v in xyz], azimuth=az, elevation=el,
+                        signature='receiver outside the second to second-last cell is not NaN',
+                        observed=str(r), required='nan')
+    return None
+
+
+def search_reciprocity(np_seed, tol=1e-9):
+    """Exchange an electric point source and an electric point receiver on a
+    tiny solve; same for magnetic points."""
+    import emg3d
+    from emg3d import fields
+    npr = np.random.RandomState(np_seed)
+    n = int(npr.choice([4, 8]))
+    hs = [np.ones(n) * 100.0 * npr.uniform(0.8, 1.25, n) for _ in range(3)]
+    grid = emg3d.TensorMesh(hs, (-sum(hs[0]) / 2, -sum(hs[1]) / 2, -sum(hs[2]) / 2))
+    model = emg3d.Model(grid, property_x=npr.uniform(0.3, 3.0, grid.shape_cells))
+    freq = 1.0
+    magnetic = bool(npr.rand() < 0.4)
+    Tx = emg3d.TxMagneticPoint if magnetic else emg3d.TxElectricPoint
+
+    def rx():
+        xyz, az, el = _rand_rx(npr, grid)
+        return tuple(xyz) + (float(npr.uniform(-180, 180)), float(npr.uniform(-80, 80)))
+    ca, cb = rx(), rx()
+    out = []
+    for c in (ca, cb):
+        sf = fields.get_source_field(grid, Tx(c), freq)
+        ef, info = emg3d.solve(model, sf, sslsolver='bicgstab', semicoarsening=True,
+                               linerelaxation=True, tol=tol, maxit=200, verb=-1, return_info=True)
+        if info['exit'] != 0:
+            return None                     # not converged: nothing to compare
+        out.append(ef)
+    if magnetic:
+        fa = fields.get_magnetic_field(model, out[0])
+        fb = fields.get_magnetic_field(model, out[1])
+    else:
+        fa, fb = out
+    rab = complex(fields.get_receiver(fa, cb, 'linear'))
+    rba = complex(fields.get_receiver(fb, ca, 'linear'))
+    scale = max(abs(rab), abs(rba), 1e-300)
+    # bound: |<p_b, A^-1 r_a>| with relative residual <= tol; condition number of these tiny
+    # systems is small -> 1e4*tol relative is > 1000x the measured deviation (<= 5e-9)
+    if abs(rab - rba) > 1e4 * tol * scale:
+        return {'signature': ('magnetic' if magnetic else 'electric') + ' point source/receiver not reciprocal',
+                'np_seed': int(np_seed), 'n': n, 'source_a': list(ca), 'source_b': list(cb),
+                'observed': [str(rab), str(rba)], 'required': 'equal up to solver tolerance',
+                'rel_diff': abs(rab - rba) / scale, 'kind': 'reciprocity'}
+    return {'ok': True, 'rel_diff': abs(rab - rba) / scale}
+
+
 def search(ctx, broken):
-    return []
+    rng = ctx.rng
+    hits = []
+    n = 40 if ctx.thorough else 15
+    for _ in range(n):
+        h = search_identity(rng.randint(0, 2**31 - 1))
+        if h:
+            h['kind'] = 'identity'
+            hits.append(h)
+            break
+    worst = 0.0
+    nrec = 20 if ctx.thorough else 8
+    if not hits:
+        for _ in range(nrec):
+            h = search_reciprocity(rng.randint(0, 2**31 - 1))
+            if h and not h.get('ok'):
+                hits.append(h)
+                break
+            if h:
+                worst = max(worst, h['rel_diff'])
+    ctx.notes.append(f"searcher: {n} random float problems (identity vs implementation and an independent numpy "
+                     f"oracle, electric and magnetic, NaN policy), {nrec} reciprocity solves "
+                     f"(worst relative deviation {worst:.2e}, tol 1e-9)")
+    return hits
 
 
 def replay(ctx, payload):
-    return True
+    fi = payload.get('failing_input')
+    if not fi or 'np_seed' not in fi:
+        return False
+    if fi.get('kind') == 'reciprocity':
+        h = search_reciprocity(fi['np_seed'])
+        return bool(h is None or h.get('ok'))
+    return search_identity(fi['np_seed']) is None
